@@ -385,6 +385,23 @@ def execute(run):
                             'column %r: cdf(percent_point(p)) != p for the fitted kernel estimate '
                             '(|p - cdf(ppf(p))| > 1e-6 on a probability grid)' % (name,),
                             d=len(model.columns), config=run['config']['form'])
+            # ... and only if that cdf is the law of the fitted estimate: the weighted mixture
+            # of normal kernels over the stored data (from the parameters, not from cdf())
+            xs = np.quantile(train_df[name].to_numpy(dtype=float), np.linspace(0.01, 0.99, 23))
+            ref_o = outcome(gmvlib.kde_reference_cdf, inst, xs)
+            got_o = outcome(lambda: np.asarray(inst.cdf(xs), dtype=float))
+            if ref_o[0] == 'ok' and got_o[0] == 'ok':
+                ctx.stats['kde_law_checks'] += 1
+                dev = float(np.max(np.abs(ref_o[1] - got_o[1])))
+                if not dev <= 1e-9:
+                    ctx.violate('c_kde_marginal_cdf_is_the_kernel_mixture', SUBJECT,
+                                'column %r: cdf() of the fitted kernel estimate differs from the '
+                                'weighted mixture of its kernels by %.3g (weights %s)'
+                                % (name, dev, 'given' if getattr(inst, 'weights', None) is not None
+                                   else 'default'),
+                                d=len(model.columns), config=run['config']['form'])
+            elif got_o[0] == 'ok':
+                ctx.probes['kde_reference_unavailable:' + outcome_class(ref_o)] += 1
     recognised = [False]
     # protocol recognition probe, out of band: a copy of the model samples 16 rows under an
     # unrelated global state; calls with n < 8 are then checked exactly too
